@@ -1415,8 +1415,8 @@ func (c *vfPoolCase) reload() {
 
 // reorg is the final op of a case: the head O (which mined a few transactions) is replaced by a
 // sibling N that mined only some of them; reset(O, N) has to put the others back into the pool.
-// The Lean model has no re-injection: the first step (A -> O, an ordinary head change) is sent to
-// the model, the reorganisation itself is checked by the oracle only and emits no M record.
+// Both steps go to the Lean model: A -> O is an ordinary head change, O -> N is `reset … t=… t=…`
+// (`Pool.resetReinject`: the dropped-branch transactions are re-added before promotion/demotion).
 func (c *vfPoolCase) reorg() {
 	r := c.r
 	before := c.snap()
@@ -1521,7 +1521,7 @@ func (c *vfPoolCase) reorgRun(before *vfSnap, mined [][]*vfTx, keep []int, newHe
 		}
 	}
 	c.unsettled = false
-	// step 2 (oracle only): head O -> N
+	// step 2: head O -> N, with re-injection
 	for a := 0; a < c.nAcc; a++ {
 		c.nonces[a] = c.nonces[a] - uint64(len(mined[a])) + uint64(keep[a])
 	}
@@ -1548,33 +1548,18 @@ func (c *vfPoolCase) reorgRun(before *vfSnap, mined [][]*vfTx, keep []int, newHe
 		return t.nonce >= c.nonces[a] && t.cost().Cmp(big.NewInt(c.bals[a])) <= 0 && t.gas <= c.chain.gasLimit &&
 			(t.price >= c.lastFloor || localB[a])
 	}
-	// FINDING (not in KNOWN_FINDINGS yet): when a re-injected transaction does not make it back
-	// (not valid under N's state, or refused by the pool-full branch of add) while transactions
-	// with higher nonces of the same sender are still pending, the pending list keeps a nonce gap:
-	// demoteUnexecutables only looks for a gap *in front* (first pending nonce != state nonce).
-	// Reported under its own signature; the generic gap / Nonce() clauses are skipped for exactly
-	// the accounts whose first hole is such a failed re-injection.
-	c.gapExempt = make([]bool, c.nAcc)
-	for a := 0; a < c.nAcc; a++ {
-		for i, t := range after.pending[a] {
-			want := c.nonces[a] + uint64(i)
-			if t.nonce == want {
-				continue
-			}
-			for _, x := range lost {
-				if x.sender == a && x.nonce == want && after.where(x) == "unknown" && i > 0 {
-					c.gapExempt[a] = true
-					why := "refused although valid under the new head (pool limits)"
-					if !valid(x) {
-						why = "not valid under the new head"
-					}
-					o.Viol("pool-reorg-reinject-gap-in-pending", fmt.Sprintf("%s: account %d state nonce %d: re-injected tx %d (nonce %d) %s, pending keeps nonce %d (tx %d) behind the hole; before %s after %s",
-						ctx, a, c.nonces[a], x.id, x.nonce, why, t.nonce, t.id, mid.text, after.text))
-				}
-			}
-			break
-		}
+	// The re-injection is part of the model now (`resetReinject`): the transactions of the dropped
+	// branch that the new branch does not contain go to the model in block order (the order of
+	// types.TxDifference(discarded, included)).
+	specs := make([]string, len(lost))
+	for i, t := range lost {
+		specs[i] = " " + t.spec()
 	}
+	o.Op(vfModel, fmt.Sprintf("reset %s%s => %s", c.chainText(), strings.Join(specs, ""), after.text), "ok")
+	// Regression for finding C17-R1 (fixed in /repo 6d44dc4): a re-injected transaction that does
+	// not make it back must not leave a nonce gap in pending any more - the generic clauses of
+	// `invariants` apply without exemption.
+	c.gapExempt = nil
 	c.invariants(mid, after, true, nil, ctx)
 	c.gapExempt = nil
 	c.queuedPayable(after, ctx)
@@ -1648,7 +1633,8 @@ func (c *vfPoolCase) reorgRun(before *vfSnap, mined [][]*vfTx, keep []int, newHe
 	c.key.WriteString("O")
 }
 
-// vfReorgGapCase is the directed scenario of the re-injection finding: one sender with pending
+// vfReorgGapCase is the directed scenario of the re-injection finding C17-R1 (fixed in /repo
+// 6d44dc4), kept as a regression case that must show NO gap: one sender with pending
 // nonces 0, 1, 2; the old head mined 0 and 1; the new head mined neither and leaves the sender
 // a balance that pays for nonce 0 and 2 but not for nonce 1. No pool limit is involved.
 func vfReorgGapCase(o *vfOut, idx int) {
@@ -1665,6 +1651,10 @@ func vfReorgGapCase(o *vfOut, idx int) {
 		c.opn++
 	}
 	c.reorgRun(c.snap(), [][]*vfTx{{ts[0], ts[1]}, nil, nil}, []int{0, 0, 0}, func() { c.bals[0] = ts[1].cost().Int64() - 1 })
+	// nonce 0 came back and is executable, nonce 1 is unaffordable and gone, nonce 2 waits in the queue
+	if got, want := c.snap().text, "P=0:1 Q=0:3 N=1,0,0 S=1/1"; got != want {
+		o.Viol("pool-reorg-reinject-regression-c17r1", fmt.Sprintf("pool case %d: after the reorganisation the pool is %s, want %s", idx, got, want))
+	}
 	o.Stat("pool.directed-reorg-gap-scenario")
 	o.Case("reorg-gap", true)
 }
@@ -1755,7 +1745,7 @@ func vfPoolCaseRun(o *vfOut, r *vfRand, idx int) {
 		c.reload()
 	}
 	if withReorg {
-		c.reorg() // the last op: no M record after it
+		c.reorg() // the last op
 	}
 	if reloadAt == nops || withReorg {
 		fin = c.snap()
